@@ -64,6 +64,7 @@ def parseLabel (s : String) : Option Label :=
   else if s == "DR" then some (.downReset .StreamConnectionTermination) else if s == "CC" then some .connClose
   else if s == "HG" then some .hostsGone
   else if s == "PFo" then some (.poolFail .overflow) else if s == "PFc" then some (.poolFail .connfail)
+  else if s.startsWith "TM" then (dropS s 2).toNat?.map Label.terminate
   else if s.startsWith "R" then
     match (dropS s 1).splitOn ":" with
     | [k, code, dt] => do
